@@ -624,6 +624,8 @@ class Evaluator:
                 names.append(x.name)
             elif isinstance(x, S.ClassRef):
                 names.append(x.name)
+            elif isinstance(x, Opaque):
+                names.append(x.name.split(".")[-1])
             else:
                 raise Unsupported("except clause type %r" % (x,))
         c = exc.cls
